@@ -158,6 +158,27 @@ def run(ctx):
                       "to a whole number, so pressures and ratios that differ by less than 1 rank as equal" % (
                           f.pq, (nd.get("ptypes") or ["?"])[0], nd.get("type"), f.text(nd["args"][2]) if len(nd.get("args", [])) > 2 else "?"))
     ctx.counters["accumulations_examined"] = n_acc
+    # (0') 'exactly, for 64-bit byte counts': a byte count is not multiplied by another run-time value in 64-bit integer arithmetic -
+    # total * percent wraps for totals above 2^63 / percent and the threshold goes negative (every sibling passes it); the percentage
+    # is applied as a floating-point factor (total * (double(percent) / 100)), which cannot wrap.  Products with a constant are left alone.
+    n_mul = 0
+    for f in fns:
+        for i, nd in enumerate(f.nodes):
+            if nd["k"] != "bin" or nd.get("op") not in ("*", "*=") or not (nd.get("tw") or "").startswith(("i64", "u64")):
+                continue
+            if const_int(f, nd["l"]) is not None or const_int(f, nd["r"]) is not None:
+                continue
+            lt, rt = f.nodes[f.strip(nd["l"])].get("tw") or "", f.nodes[f.strip(nd["r"])].get("tw") or ""
+            if lt.startswith("f") or rt.startswith("f"):
+                continue
+            n_mul += 1
+            ctx.use(f)
+            ctx.violation("byte-count-product-cannot-wrap:%s@%d" % (short(f), nd.get("line", 0)), "E-TYPE overflow (integer product of two run-time values)", f.loc(i),
+                          "%s multiplies two run-time 64-bit integers (%s): with a byte count on one side the product wraps for large totals - a percentage of a "
+                          "total becomes negative and every candidate passes the threshold it stands for" % (f.pq, f.text(i)[:80]))
+    ctx.counters["integer_products_examined"] = n_mul
+    if not n_mul:
+        ctx.ok("byte-count-product-cannot-wrap:scan", "E-TYPE overflow (integer product of two run-time values)", "-", "no 64-bit integer product of two run-time values in the %d ranking functions" % len(fns))
     n_casts = 0
     for f in fns:
         ctx.use(f)
